@@ -50,6 +50,36 @@ theorem op_some_iff {ds : DSymData} {i d e : Nat} :
     ds.op i d = some e ↔ i ≤ ds.dim ∧ 1 ≤ d ∧ d ≤ ds.size ∧ ds.dset.opU i d = e :=
   opSimple_eq_some
 
+/-- the chamber across facet `a` of chamber `c`; the chamber itself when there is none
+    (`ds.op(a, c).unwrap_or(c)`) -/
+def opT (ds : DSymData) (a c : Nat) : Nat := (ds.op a c).getD c
+
+theorem opT_eq {ds : DSymData} {a c : Nat} (ha : a ≤ ds.dim) (h1 : 1 ≤ c) (h2 : c ≤ ds.size) :
+    opT ds a c = ds.dset.opU a c := by
+  unfold opT; rw [op_eq ha h1 h2]; rfl
+
+theorem opT_oor {ds : DSymData} {a c : Nat} (h : ¬ (a ≤ ds.dim ∧ 1 ≤ c ∧ c ≤ ds.size)) :
+    opT ds a c = c := by
+  unfold opT
+  cases g : ds.op a c with
+  | none => rfl
+  | some e =>
+    obtain ⟨h1, h2, h3, _⟩ := op_some_iff.1 g
+    exact absurd ⟨h1, h2, h3⟩ h
+
+theorem opT_range {ds : DSymData} (hv : ValidSet ds.dset) {a c : Nat} (h1 : 1 ≤ c) (h2 : c ≤ ds.size) :
+    1 ≤ opT ds a c ∧ opT ds a c ≤ ds.size := by
+  by_cases ha : a ≤ ds.dim
+  · rw [opT_eq ha h1 h2]; exact hv.range a c ha h1 h2
+  · rw [opT_oor (fun h => ha h.1)]; exact ⟨h1, h2⟩
+
+theorem opT_invol {ds : DSymData} (hv : ValidSet ds.dset) (a c : Nat) : opT ds a (opT ds a c) = c := by
+  by_cases h : a ≤ ds.dim ∧ 1 ≤ c ∧ c ≤ ds.size
+  · have r := hv.range a c h.1 h.2.1 h.2.2
+    rw [opT_eq h.1 h.2.1 h.2.2, opT_eq h.1 r.1 r.2]
+    exact hv.invol a c h.1 h.2.1 h.2.2
+  · rw [opT_oor h, opT_oor h]
+
 /-- the invariant of the ridge pairing -/
 structure BInv (ds : DSymData) (m : OppMap) : Prop where
   nodup : KeysNodup m
